@@ -6,7 +6,11 @@ package main
 
 import (
 	"bytes"
+	"crypto/dsa"
+	"crypto/sha1"
 	"crypto/sha256"
+	"encoding/hex"
+	"sort"
 	"encoding/base64"
 	"fmt"
 	"math/big"
@@ -194,6 +198,9 @@ func execRecv(o hx.Op) (res string) {
 	}()
 	for i, in := range unHexList(o.Str("in")) {
 		c.Rand = hx.NewRand(mix(seed, i))
+		if o.Str("rnd") == "0" {
+			c.Rand = nil // zero-value behaviour: crypto/rand
+		}
 		out, enc, ch, toSend, err := c.Receive(in)
 		outs = append(outs, showRecv(c, out, enc, ch, toSend, err))
 	}
@@ -251,7 +258,7 @@ func (cr *convRun) step(i int, tok string) {
 	switch f[0][0] {
 	case 'q':
 		me.c.Rand = hx.NewRand(mix(cr.seed, i))
-		out, enc, ch, toSend, err := me.c.Receive([]byte("?OTRv2?"))
+		out, enc, ch, toSend, err := me.c.Receive([]byte(otr.QueryMessage))
 		cr.outs = append(cr.outs, showRecv(me.c, out, enc, ch, toSend, err))
 		queue(peer, toSend, false)
 	case 'x': // bytes injected by a network attacker
@@ -308,7 +315,18 @@ func execConv(o hx.Op) (res string) {
 	for i, tok := range strings.Split(o.Str("script"), ",") {
 		cr.step(i, tok)
 	}
-	return strings.Join(cr.outs, ",")
+	return strings.Join(cr.outs, ",") + cr.summary()
+}
+
+// summary: the public fields after the script — SSID equal on both sides, TheirPublicKey == the peer's key.
+func (cr *convRun) summary() string {
+	tpk := func(me, peer *side) string {
+		if me.c.TheirPublicKey.P == nil {
+			return "0"
+		}
+		return b01(bytes.Equal(me.c.TheirPublicKey.Fingerprint(), peer.c.PrivateKey.PublicKey.Fingerprint()))
+	}
+	return ";ssid=" + b01(cr.A.c.SSID == cr.B.c.SSID) + ";tpk=" + tpk(cr.A, cr.B) + tpk(cr.B, cr.A)
 }
 
 // execMut: run the script, then deliver the given (mutated) pieces to one side instead of the
@@ -335,9 +353,91 @@ func execMut(o hx.Op) (res string) {
 	return strings.Join(outs, ",")
 }
 
+func execConst() string {
+	ka, _ := getKeys()
+	c := &otr.Conversation{PrivateKey: ka}
+	_, _, _, ts, _ := c.Receive([]byte(otr.QueryMessage))
+	isq := 0
+	if len(ts) > 0 && typeOf(group(ts)[0], false) == "2" {
+		isq = 2
+	}
+	c2 := &otr.Conversation{PrivateKey: ka}
+	out, _, _, ts2, _ := c2.Receive([]byte(otr.ErrorPrefix + " x"))
+	eq := 1
+	if len(ts2) == 0 && string(out) == otr.ErrorPrefix+" x" {
+		eq = 0
+	}
+	return fmt.Sprintf("query=%s isquery=%d errprefix=%s errisquery=%d changes=%d,%d,%d,%d,%d,%d", hx.Hex([]byte(otr.QueryMessage)), isq,
+		hx.Hex([]byte(otr.ErrorPrefix)), eq, otr.NoChange, otr.NewKeys, otr.SMPSecretNeeded, otr.SMPComplete, otr.SMPFailed, otr.ConversationEnded)
+}
+
+func execKeyparse(o hx.Op) string {
+	if o.Str("kind") == "priv" {
+		var k otr.PrivateKey
+		rest, ok := k.Parse(o.Hex("in"))
+		if !ok {
+			return "fail"
+		}
+		return fmt.Sprintf("ok %s,%s,%s,%s,%s rest=%d", k.PrivateKey.P, k.PrivateKey.Q, k.PrivateKey.G, k.PrivateKey.Y, k.PrivateKey.X, len(rest))
+	}
+	var k otr.PublicKey
+	rest, ok := k.Parse(o.Hex("in"))
+	if !ok {
+		return "fail"
+	}
+	return fmt.Sprintf("ok %s,%s,%s,%s rest=%d", k.P, k.Q, k.G, k.Y, len(rest))
+}
+
+// execKeyops: Serialize/Parse, Fingerprint, Sign/Verify, PrivateKey Serialize/Parse and Import on the
+// harness keys, each judged with the standard library (sha1, dsa.Verify), not with the otr package.
+func execKeyops(o hx.Op) string {
+	ka, kb := getKeys()
+	k := ka
+	if o.Str("key") == "b" {
+		k = kb
+	}
+	r := hx.NewRand(o.U64("seed"))
+	ser := k.PublicKey.Serialize(nil)
+	var p2 otr.PublicKey
+	rest, ok := p2.Parse(ser)
+	serOK := ok && len(rest) == 0 && p2.P.Cmp(k.PublicKey.P) == 0 && p2.Q.Cmp(k.PublicKey.Q) == 0 && p2.G.Cmp(k.PublicKey.G) == 0 && p2.Y.Cmp(k.PublicKey.Y) == 0
+	fp := sha1.Sum(ser[2:])
+	fpOK := bytes.Equal(k.PublicKey.Fingerprint(), fp[:])
+	hashed := r.Bytes(20)
+	sig := k.Sign(r, hashed)
+	rs, okv := k.PublicKey.Verify(hashed, sig)
+	signOK := okv && len(rs) == 0 && len(sig) == 40 &&
+		dsa.Verify(&k.PrivateKey.PublicKey, hashed, new(big.Int).SetBytes(sig[:20]), new(big.Int).SetBytes(sig[20:]))
+	bad := append([]byte(nil), sig...)
+	bad[r.Intn(40)] ^= 1 << r.Intn(8)
+	_, tamper := k.PublicKey.Verify(hashed, bad)
+	_, short := k.PublicKey.Verify(hashed, sig[:39])
+	pser := k.Serialize(nil)
+	var k2 otr.PrivateKey
+	prest, pok := k2.Parse(pser)
+	privOK := pok && len(prest) == 0 && k2.PrivateKey.X.Cmp(k.PrivateKey.X) == 0 && k2.PrivateKey.Y.Cmp(k.PrivateKey.Y) == 0
+	// libotr key file with this key
+	file := fmt.Sprintf("(privkeys\n (account\n(name \"x\")\n(protocol prpl-jabber)\n(private-key \n (dsa \n  (p #%s#)\n  (q #%s#)\n  (g #%s#)\n  (y #%s#)\n  (x #%s#)\n  )\n )\n )\n)\n",
+		hexInt(k.PrivateKey.P), hexInt(k.PrivateKey.Q), hexInt(k.PrivateKey.G), hexInt(k.PrivateKey.Y), hexInt(k.PrivateKey.X))
+	var k3 otr.PrivateKey
+	impOK := k3.Import([]byte(file)) && k3.PrivateKey.X.Cmp(k.PrivateKey.X) == 0
+	var k4 otr.PrivateKey
+	impBad := k4.Import([]byte(strings.Replace(file, hexInt(k.PrivateKey.X), hexInt(new(big.Int).Add(k.PrivateKey.X, big.NewInt(1))), 1)))
+	return fmt.Sprintf("ser=%s fp=%s sign=%s tamper=%s shortsig=%s privser=%s import=%s importbad=%s", b01(serOK), b01(fpOK), b01(signOK), b01(tamper), b01(short),
+		b01(privOK), b01(impOK), b01(impBad))
+}
+
+func hexInt(v *big.Int) string { return strings.ToUpper(hex.EncodeToString(v.Bytes())) }
+
 func exec(line string) string {
 	o := hx.Parse(line)
 	switch o.Cmd {
+	case "const":
+		return execConst()
+	case "keyparse":
+		return execKeyparse(o)
+	case "keyops":
+		return execKeyops(o)
 	case "enc":
 		return execEnc(o)
 	case "frag":
@@ -360,6 +460,11 @@ func genEnc(g *hx.Gen, n int) {
 	r := g.R
 	for i := 0; i < n; i++ {
 		fs := hx.Pick(r, fragSizes)
+		for k, v := range fragSizes {
+			if v == fs {
+				hit("fragSize", k)
+			}
+		}
 		if r.Chance(1, 6) {
 			fs = r.Range(15, 60)
 		}
@@ -601,6 +706,7 @@ func buildTyped(g *hx.Gen, r *hx.Rand) built {
 		wellFormed = false
 	}
 	g.Stat("recv.type-" + strconv.Itoa(t))
+	hit("msgType", t)
 	return built{wire: w, bad2: t == 2 && !wellFormed}
 }
 
@@ -690,7 +796,18 @@ func genRecv(g *hx.Gen, n int) {
 		if bad2 {
 			g.Stat("recv.has-malformed-commit")
 		}
-		g.Emit("recv seed=%d fs=%d in=%s dg=%s", seed, hx.Pick(r, fragSizes), hexList(ins), hexList2(dgs))
+		rnd := ""
+		if !bad2 && r.Chance(1, 12) {
+			hasQ := false
+			for _, d := range dgs {
+				hasQ = hasQ || len(d) > 0
+			}
+			if !hasQ {
+				rnd = " rnd=0" // Conversation.Rand == nil: crypto/rand (no query here, so nothing depends on it)
+				g.Stat("recv.rand-nil")
+			}
+		}
+		g.Emit("recv seed=%d fs=%d in=%s dg=%s%s", seed, hx.Pick(r, fragSizes), hexList(ins), hexList2(dgs), rnd)
 	}
 }
 
@@ -716,7 +833,9 @@ func userText(g *hx.Gen, r *hx.Rand) []byte {
 	if r.Chance(1, 5) { // a NUL inside the text: the rest is read as TLVs by the peer
 		g.Stat("conv.text-with-nul")
 		var tail []byte
-		switch r.Intn(7) {
+		kt := r.Intn(7)
+		hit("tlvTail", kt)
+		switch kt {
 		case 0:
 			tail = []byte{0, 1, 0, 0}
 		case 1:
@@ -740,6 +859,7 @@ func genConv(g *hx.Gen, n int) {
 	for i := 0; i < n; i++ {
 		seed := r.U64()
 		var toks []string
+		fset := map[string]bool{}
 		ab := func() string { return r.PickStr("a", "b") }
 		q := func(s string) { toks = append(toks, fmt.Sprintf("q%s.%s", s, hx.Hex(commitDigest(mix(seed, len(toks)))))) }
 		drain := func(k int) {
@@ -761,11 +881,13 @@ func genConv(g *hx.Gen, n int) {
 			q("a")
 			q("b")
 			g.Stat("conv.start-crossing")
+				fset["crossing"] = true
 		}
-		if r.Chance(1, 8) {
+		if r.Chance(1, 5) {
 			toks = append(toks, "d"+ab())
 			q(ab()) // a second query while the AKE is running
 			g.Stat("conv.query-during-ake")
+				fset["query-during-ake"] = true
 		}
 		drain(r.Intn(8))
 		for ph := r.Range(1, 5); ph > 0; ph-- {
@@ -779,6 +901,7 @@ func genConv(g *hx.Gen, n int) {
 				}
 				drain(r.Intn(4))
 				g.Stat("conv.data")
+				fset["data"] = true
 			case 3, 4:
 				s := ab()
 				o := "b"
@@ -790,17 +913,20 @@ func genConv(g *hx.Gen, n int) {
 				if r.Chance(1, 2) {
 					sec2 = r.Bytes(r.Range(1, 8))
 					g.Stat("conv.smp-unequal")
+				fset["smp-unequal"] = true
 				} else {
 					g.Stat("conv.smp-equal")
+				fset["smp-equal"] = true
 				}
 				qn := "-"
 				if r.Chance(1, 2) {
 					qn = hx.Hex([]byte("q" + strconv.Itoa(r.Intn(100))))
 				}
 				toks = append(toks, fmt.Sprintf("m%s.%s.%s", s, qn, hx.Hex(sec)))
-				if r.Chance(1, 6) { // both start
+				if r.Chance(1, 4) { // both start
 					toks = append(toks, fmt.Sprintf("m%s.-.%s", o, hx.Hex(sec2)))
 					g.Stat("conv.smp-crossing")
+				fset["smp-crossing"] = true
 				}
 				toks = append(toks, "d"+o)
 				toks = append(toks, fmt.Sprintf("m%s.-.%s", o, hx.Hex(sec2)))
@@ -809,6 +935,7 @@ func genConv(g *hx.Gen, n int) {
 				toks = append(toks, "e"+ab())
 				drain(0)
 				g.Stat("conv.end")
+				fset["end"] = true
 			case 6:
 				q(ab())
 				if r.Chance(1, 2) {
@@ -816,16 +943,104 @@ func genConv(g *hx.Gen, n int) {
 				}
 				drain(r.Intn(4))
 				g.Stat("conv.requery")
+				fset["requery"] = true
 			case 7:
 				q("a")
 				q("b")
 				drain(r.Intn(6))
 				g.Stat("conv.requery-crossing")
+				fset["requery-crossing"] = true
 			default:
 				toks = append(toks, fmt.Sprintf("s%s.%s", ab(), hx.Hex(userText(g, r))))
 			}
 		}
-		g.Emit("conv seed=%d fa=%d fb=%d script=%s", seed, hx.Pick(r, fragSizes), hx.Pick(r, fragSizes), strings.Join(toks, ","))
+		fa, fb := hx.Pick(r, fragSizes), hx.Pick(r, fragSizes)
+		if r.Chance(1, 4) {
+			fa = r.PickInt(18, 19)
+		}
+		if fa > 18 || fb > 18 {
+			fset["fragmented"] = true
+		}
+		if fa == 18 || fb == 18 || fa == 19 || fb == 19 {
+			fset["frag-18/19"] = true
+		}
+		for _, t := range toks {
+			if strings.HasPrefix(t, "s") && strings.Contains(t[3:], "00") {
+				fset["nul-text"] = true
+			}
+			if strings.HasPrefix(t, "s") && len(t) > 400 {
+				fset["long-text"] = true
+			}
+		}
+		var feats []string
+		for f := range fset {
+			feats = append(feats, f)
+		}
+		sort.Strings(feats)
+		pairs(g, feats)
+		g.Emit("conv seed=%d fa=%d fb=%d script=%s", seed, fa, fb, strings.Join(toks, ","))
+	}
+}
+
+// pairs counts every pair of features present in one op (feature-interaction coverage).
+func pairs(g *hx.Gen, feats []string) {
+	for i := 0; i < len(feats); i++ {
+		for j := i + 1; j < len(feats); j++ {
+			g.Stat("pair." + feats[i] + "+" + feats[j])
+		}
+	}
+}
+
+var tableHit = map[string]map[int]bool{}
+
+func hit(table string, idx int) {
+	if tableHit[table] == nil {
+		tableHit[table] = map[int]bool{}
+	}
+	tableHit[table][idx] = true
+}
+
+// genApi: constants, key (de)serialisation, key operations
+func genApi(g *hx.Gen) {
+	r := g.R
+	g.Emit("const")
+	for _, k := range []string{"a", "b"} {
+		for j := 0; j < 3; j++ {
+			g.Emit("keyops key=%s seed=%d", k, r.U64())
+		}
+	}
+	ka, kb := getKeys()
+	for i := 0; i < 120; i++ {
+		k := ka
+		if i%2 == 1 {
+			k = kb
+		}
+		kind := "pub"
+		b := k.PublicKey.Serialize(nil)
+		if i%4 >= 2 {
+			kind = "priv"
+			b = k.Serialize(nil)
+		}
+		switch r.Intn(8) {
+		case 0:
+			b = b[:r.Intn(len(b))]
+			g.Stat("keyparse.truncated")
+		case 1:
+			b = append(b, r.Bytes(r.Range(1, 5))...)
+			g.Stat("keyparse.trailing")
+		case 2:
+			b[r.Intn(2)] = byte(r.Range(1, 255))
+			g.Stat("keyparse.bad-type")
+		case 3:
+			b[r.Intn(len(b))] ^= byte(1 << r.Intn(8))
+			g.Stat("keyparse.bitflip")
+		case 4:
+			b = r.Bytes(r.Intn(30))
+			g.Stat("keyparse.random")
+		default:
+			g.Stat("keyparse.valid")
+		}
+		g.Emit("keyparse kind=%s in=%s", kind, hx.Hex(b))
 	}
 }
 
@@ -1121,13 +1336,21 @@ func genAttack(g *hx.Gen, n int) {
 	}
 }
 
+func reportTables(g *hx.Gen) {
+	for t, n := range map[string]int{"msgType": 9, "tlvTail": 7, "fragSize": len(fragSizes)} {
+		g.StatN(fmt.Sprintf("table.%s=%d/%d", t, len(tableHit[t]), n), 1)
+	}
+}
+
 func gen(g *hx.Gen) {
+	genApi(g)
 	genEnc(g, g.Count(1000, 30000))
 	genFrag(g, g.Count(1500, 60000))
 	genRecv(g, g.Count(2500, 80000))
-	genConv(g, g.Count(120, 3000))
+	genConv(g, g.Count(150, 3000))
 	genBurst(g)
 	genAttack(g, g.Count(8, 300))
+	reportTables(g)
 	genMut(g, g.Count(800, 60000))
 }
 
